@@ -254,7 +254,7 @@ class MTr(BTr):
         self.ret_type = None
         self.has_value_return = any(isinstance(n, ast.Return) and n.value is not None and not
                                     (isinstance(n.value, ast.Constant) and n.value.value is None) for n in ast.walk(fn))
-        self.mutated = prog.mutated_attrs(cls, fn.name)
+        self.mutated = sorted(prog.mutated_attrs(cls, fn.name))
         self.mut_names = self.mutated_names(fn)
         for n in ast.walk(fn):
             if isinstance(n, (ast.FunctionDef, ast.Lambda, ast.Global, ast.Nonlocal, ast.While, ast.Try, ast.With, ast.Break, ast.Yield,
@@ -753,7 +753,7 @@ class MTr(BTr):
             for i, e in enumerate(ends):
                 t = e.get(m) if i == 0 else pybytes.join(t, e.get(m))
             J[m] = POISON if t is None else t
-        passed = [m for m in M if J[m] != POISON]
+        passed = sorted(m for m in M if J[m] != POISON)      # canonical order: the proofs name the tuple components
 
         def pack():
             vals = [pybytes.coerce(m, self.env[m], J[m]) for m in passed]
@@ -804,7 +804,7 @@ class MTr(BTr):
         for k in A:                                     # an attribute mutated in the body that was not read yet: parameter first
             if k.startswith('self_') and k not in self.env and self.ctor is None:
                 self.attr_stored(k[5:])
-        state = [k for k in A if k in self.env]
+        state = sorted(k for k in A if k in self.env)          # canonical order
         for k in state:
             if self.env[k] == POISON:
                 raise Untranslatable(f'{k} is not defined on all paths reaching the loop that assigns it')
@@ -890,7 +890,7 @@ class MTr(BTr):
             rt = ' × '.join(tpar(self.prog.lean_ty(self.attr_type(m))) for m in self.mutated) if self.mutated else 'Unit'
         sig = ([('H', 'H', 'H', None)] if self.uses_H else []) + self.sig
         ps = ' '.join('(H : Bytes → Bytes)' if k == 'H' else f'({ln} : {self.prog.lean_ty(t)})' for k, _, ln, t in sig)
-        doc = pybytes.doc_of(self.fn, f'{self.prog.src}: {self.owner}.{self.fn.name}')
+        doc = pybytes.doc_of(self.fn, f'{self.prog.classes[self.owner].get("src", self.prog.src)}: {self.owner}.{self.fn.name}')
         text = f'{doc}def {self.lean} {ps} : Option ({rt}) :=\n{indent(body)}\n'
         return dict(lean=self.lean, sig=sig, ret=self.ret_type if self.has_value_return else None,
                     mutated=[] if (self.has_value_return or self.ctor is not None) else list(self.mutated), text=text)
